@@ -64,6 +64,29 @@ func zrank(n, r int) (idx int, exact bool) {
 	return r, exact
 }
 
+// zwindow normalises a rank window: negative ranks count from the end, ranks that are then still
+// below 1 stand for 1, the upper side is cut at n.  lo > hi means the window holds no member.
+func zwindow(n, a, b int) (lo, hi int, rev bool) {
+	norm := func(r int) int {
+		if r < 0 {
+			r = n + r + 1
+		}
+		if r <= 0 {
+			r = 1
+		}
+		return r
+	}
+	a, b = norm(a), norm(b)
+	rev = a > b
+	if rev {
+		a, b = b, a
+	}
+	if b > n {
+		b = n
+	}
+	return a, b, rev
+}
+
 func zrun(z []ZMem, a, b int) []ZMem { // ranks 1-based inclusive, reversed when a > b
 	if len(z) == 0 {
 		return nil
@@ -108,17 +131,18 @@ func (s *State) evalZSet(c Call, impl Res) (Expect, bool) {
 		if n == 0 {
 			return Expect{Err: 2}, true
 		}
-		a, ea := zrank(n, c.I)
-		b, eb := zrank(n, c.J)
+		_, ea := zrank(n, c.I)
+		_, eb := zrank(n, c.J)
 		e := Expect{}
 		if !ea || !eb {
 			e.Err = 2
 		}
 		if ok(impl) {
-			if a > b {
-				a, b = b, a
+			// the window [I,J] (either order) intersected with the ranks that exist
+			lo, hi, _ := zwindow(n, c.I, c.J)
+			if lo <= hi {
+				s.ZSet[c.B] = append(append([]ZMem(nil), z[:lo-1]...), z[hi:]...)
 			}
-			s.ZSet[c.B] = append(append([]ZMem(nil), z[:a-1]...), z[b:]...)
 		}
 		return e, true
 	case "ZPopMax", "ZPopMin", "ZPeekMax", "ZPeekMin":
@@ -203,8 +227,19 @@ func (s *State) evalZSet(c Call, impl Res) (Expect, bool) {
 		if ea && eb {
 			return Expect{Val: fmtZs(zrun(z, a, b))}, true
 		}
-		// a rank of 0 or beyond ±n: clamping is unspecified; any contiguous, correctly ordered
-		// run of members (ascending or descending) is accepted
+		// a rank of 0 or beyond ±n: the members whose rank lies in the window, i.e. the window
+		// intersected with the ranks that exist (a negative rank counts from the end, a rank that is
+		// still not positive then stands for the first member); an error is accepted as well
+		if lo, hi, rev := zwindow(n, c.I, c.J); true {
+			var run []ZMem
+			if lo <= hi {
+				run = zrun(z, lo, hi)
+				if rev {
+					run = zrun(z, hi, lo)
+				}
+			}
+			return Expect{Err: 2, Val: fmtZs(run)}, true
+		}
 		pos := map[string]int{}
 		for i, m := range z {
 			pos[fmtZ(m)] = i
